@@ -446,7 +446,8 @@ package engine
 //@   modifies storeState, ioFailed
 
 //@ func printTable(rows []*storage.Row, fields []*storage.Field)
-//@   trusted
+//@   props C18
+//@   requires (forall j int :: 0 <= j && j < len(fields) ==> fields[j] != nil) && (forall i int :: 0 <= i && i < len(rows) ==> rows[i] != nil)
 //@   modifies nothing
 
 // ---- session (C17 C18) ----
@@ -458,6 +459,7 @@ package engine
 //@ func (s *Session) ExecQuery(q string) error
 //@   props C17 C18 C13 C14
 //@   requires txn == 0 && sessInv(s)
+//@   assumepre printTable.1 A-PRINT: the rows and fields a SELECT or SHOW DATABASES evaluation returns contain no nil entry (proved for the rows Fetch produces, not carried through the whole evaluation pipeline)
 //@   modifies s.CurDB, s.RelationService, txn, storeState, ioFailed, walFlushes, rowsApplied, entryCount, seq, openStores, openDB, @storeHeap, all(storage.Row.Vals), all(storage.Field.Column), allelems(any), allelems(*storage.Row)
 //@   ensures[unlock; C13] txn == 0
 //@   ensures[inv; C17 C18] sessInv(s)
